@@ -42,29 +42,31 @@ OneEach(n)    == [k \in 1..n |-> <<k>>]
 
 TasksOf(kind) == CASE kind = "sl" -> {"cc", "sec", "sed"} [] kind = "ml" -> {"cml"} [] OTHER -> {kind}   \* or one single-label task
 TaskNo(task)  == CASE task = "cc" -> 0 [] task = "cml" -> 0 [] task = "sec" -> 1 [] task = "sed" -> 2
-Labelled(items) == \E i \in DOMAIN items : items[i].t # 0
+Labelled(items) == {i \in DOMAIN items : items[i].t # 0} # {}
 
-CasesOf(e) ==
-    LET V == IF e.kind # "ml" THEN SlValid(e.C) ELSE MlRaw(e.C)
-        item(r) == IF e.kind # "ml" THEN SlItem(r, e.C) ELSE MlItem(r, e.C)
+\* the case drawn from plan entry e for the index multiset rs and the task
+MkCase(e, rs, task) ==
+    LET item(r) == IF e.kind # "ml" THEN SlItem(r, e.C) ELSE MlItem(r, e.C)
         sh == ShapesOf(e.n)
-    IN  {[task  |-> task, C |-> e.C, u |-> U,
-          items |-> [i \in 1..e.n |-> item(rs[i])],
-          clips |-> IF task \in {"cc", "cml"} THEN OneEach(e.n)
-                    ELSE FromSizes(sh[1 + ((SumSeq(rs) + TaskNo(task)) % Len(sh))]),
-          style |-> (rs[1] + 3 * rs[e.n] + TaskNo(task)) % 2]
-         : rs \in Multisets(V, e.n, e.stride), task \in TasksOf(e.kind)}
+    IN  [task  |-> task, C |-> e.C, u |-> U,
+         items |-> [i \in 1..e.n |-> item(rs[i])],
+         clips |-> IF task \in {"cc", "cml"} THEN OneEach(e.n)
+                   ELSE FromSizes(sh[1 + ((SumSeq(rs) + TaskNo(task)) % Len(sh))]),
+         style |-> (rs[1] + 3 * rs[e.n] + TaskNo(task)) % 2]
+Catalogue(e) == IF e.kind # "ml" THEN SlValid(e.C) ELSE MlRaw(e.C)
 
 \* sound_event_detection computes mean average precision over the labelled items: with none it is undefined
 \* (not generated, see DESIGN section 4 C09)
-InScope(k) == k.task = "sed" => Labelled(k.items)
-AllCases == {k \in UNION {CasesOf(Plan[i]) : i \in DOMAIN Plan} : InScope(k)}
+InScope(k) == IF k.task = "sed" THEN Labelled(k.items) ELSE TRUE
 
 MetricIds(task) == IF SingleLabel(task) THEN {"acc", "bacc", "top3", "map", "tcp"} ELSE {"map", "ap", "jac"}
 \* the units on which a value is attached: all items, the items of each clip, each single item
 Units(k) == {k.items} \cup {ClipItems(k, j) : j \in DOMAIN k.clips} \cup {<<k.items[i]>> : i \in DOMAIN k.items}
 
-Init == c \in AllCases /\ ph = "in" /\ res = <<>>
+\* (nested quantifiers rather than one big set of records: TLC then never has to sort tens of thousands of records)
+Init == /\ \E i \in DOMAIN Plan : \E rs \in Multisets(Catalogue(Plan[i]), Plan[i].n, Plan[i].stride) :
+              \E task \in TasksOf(Plan[i].kind) : c = MkCase(Plan[i], rs, task) /\ InScope(c)
+        /\ ph = "in" /\ res = <<>>
 Compute == /\ ph = "in" /\ ph' = "out" /\ c' = c
            /\ res' = [mid \in MetricIds(c.task) |-> Allowed(mid, c.task, c.items, c.C, c.u)]
 Next == Compute
@@ -149,9 +151,9 @@ PlanThorough ==
     << [kind |-> "sl", C |-> 1, n |-> 1, stride |-> 1], [kind |-> "sl", C |-> 1, n |-> 2, stride |-> 1],
        [kind |-> "sl", C |-> 1, n |-> 3, stride |-> 1],
        [kind |-> "sl", C |-> 2, n |-> 1, stride |-> 1], [kind |-> "sl", C |-> 2, n |-> 2, stride |-> 1],
-       [kind |-> "cc", C |-> 2, n |-> 3, stride |-> 2],
+       [kind |-> "cc", C |-> 2, n |-> 3, stride |-> 3],
        [kind |-> "sec", C |-> 2, n |-> 3, stride |-> 8], [kind |-> "sed", C |-> 2, n |-> 3, stride |-> 8],
-       [kind |-> "sl", C |-> 3, n |-> 1, stride |-> 1], [kind |-> "sl", C |-> 3, n |-> 2, stride |-> 4],
+       [kind |-> "sl", C |-> 3, n |-> 1, stride |-> 1], [kind |-> "sl", C |-> 3, n |-> 2, stride |-> 6],
        [kind |-> "ml", C |-> 1, n |-> 1, stride |-> 1], [kind |-> "ml", C |-> 1, n |-> 2, stride |-> 1],
        [kind |-> "ml", C |-> 1, n |-> 3, stride |-> 1],
        [kind |-> "ml", C |-> 2, n |-> 1, stride |-> 1], [kind |-> "ml", C |-> 2, n |-> 2, stride |-> 1],
